@@ -28,6 +28,23 @@ def _wrap_site(ctx):
     raise AnalysisError("no call site of the dependent wrapper on the lookup path")
 
 
+def resolution_entry(ctx):
+    """The method the miss handler calls to resolve a key: the method that calls the wrapper, or - when a change split
+    the resolution into several methods - the one of its callers on the lookup path that the miss handler calls."""
+    multi = A.multimap(ctx.repo)
+    res, _, _ = _wrap_site(ctx)
+    path = lookup_path(ctx, multi)
+    miss = multi.methods["__missing__"]
+    seen = {res.key}
+    cur = res
+    while True:
+        callers = [m for m in path if m is not cur and any(isinstance(c, ast.Call) and is_self_attr(c.func, cur.name, selfname=recv_name(m)) for c in ast.walk(m.node))]
+        if any(m is miss for m in callers) or len(callers) != 1 or callers[0].key in seen:
+            return cur
+        cur = callers[0]
+        seen.add(cur.key)
+
+
 def r2_any_dependent_member_wraps(ctx):
     from . import resolveexec
 
